@@ -50,8 +50,11 @@ CONFIGS = {
         {"name": "n3red", "n": 3, "names": RED3, "L": 2},
         {"name": "n3cp", "n": 3, "names": ["cp", "h", "cx"], "L": 2},
         {"name": "n4mc", "n": 4, "names": ["mcx", "mcz", "x", "h"], "extra": "MC", "L": 2},
+        {"name": "n3mctrlx", "n": 3, "names": ["mctrlx", "mcz", "x"], "L": 2},
     ],
     "thorough": [
+        {"name": "n3mctrlx", "n": 3, "names": ["mctrlx", "mcz", "x", "h"], "L": 2},
+        {"name": "n4mctrlx", "n": 4, "names": ["mctrlx", "mcz"], "L": 2},
         {"name": "n2full", "n": 2, "names": FULL, "extra": "PI", "L": 3},
         {"name": "n3full", "n": 3, "names": FULL + ["ccx_ordered"], "extra": "PI", "L": 2},
         {"name": "n3red", "n": 3, "names": RED3, "L": 3},
@@ -94,7 +97,9 @@ def shards(tier):
 
 
 NAME_LISTS = [["r.0", "r_0"], ["a.0", "a_0", "a.1"], ["q1", "q0"], ["x", "x_"], ["q2", "b", "q0"], ["_ret", "_ret.0", "a"], ["a", "A"],
-              ["t.0.1", "t_0_1", "t.0_1"], ["anc_0", "anc_1", "anc_0_"]]
+              ["t.0.1", "t_0_1", "t.0_1"], ["anc_0", "anc_1", "anc_0_"],
+              # None = a qubit without a name (a released ancilla); another qubit is named like its positional name
+              ["q2", "a", None], ["a", None, "q1"], [None, "q0", "q0_"], ["q1", None, None], [None, None]]
 NAME_PROGS = [
     "def tfun(a: Qint[2], a_0: bool) -> bool:\n    return a[0] and a_0\n",
     "def tfun(a_1: bool, a: Qint[2]) -> bool:\n    return a[1] ^ a_1\n",
@@ -314,7 +319,9 @@ def run_case(case):
         for idxs in circs.seqs(A, 2, {"prefix": [], "short": False}):
             qc = QCircuit(0, name="named")
             for nm in names:
-                qc.add_qubit(nm)
+                i_q = qc.add_qubit(nm if nm is not None else "__unnamed")
+                if nm is None:
+                    del qc.qubit_map["__unnamed"]
             circs.build(qc, [A[i] for i in idxs])
             states += 1
             nontriv += 1
@@ -373,6 +380,8 @@ def conformance(tier):
                     q.cp(l[1], l[2], l[3])
                 elif m == "mcx":
                     q.mcx(list(l[1]), l[2])
+                elif m == "mctrl" and l[1] == "X":
+                    q.mcx(list(l[2]), l[3])
                 elif m == "mctrl":
                     q.append(ZGate().control(len(l[2])), list(l[2]) + [l[3]])
                 elif m == "barrier":
